@@ -126,7 +126,7 @@ theorem stepOK_deldd (w : World) (hw : WFW w) (fi tag ref : Nat) (hsafe : OpSafe
     · intro h a ha
       rw [acc_setFile] at ha
       have e := hslot h a ha
-      exact (hw.handles h a ha).transfer (by rw [e]) (by rw [e]) (by rw [e])
+      exact (hw.handles h a ha).transfer (by rw [e]) (by rw [e]) (by rw [e]; exact id)
     · intro j
       show (w.file j).present = ((w.setFile fi ((w.file fi).ddDelete i)).file j).present
       rw [hfile]; split
